@@ -112,7 +112,7 @@ static MTemplate base_template(const std::string& name, int k, const char* n0 = 
     return t;
 }
 
-extern "C" void harness_graph()  /* vf: bounds=2_templates;3_locations;2_edges_with_any_location_endpoints(self_loops,parallel_edges);controllable_absent/true/false;initial_location_index;location_names_from_a_pool(Err,lpmin,lt,amp,quot) reach=end */
+extern "C" void harness_graph()  /* vf: bounds=2_templates;3_locations;2_edges_with_any_location_endpoints(self_loops,parallel_edges);controllable_absent/true/false;initial_location_index;urgent/committed_endpoints;location_names_from_a_pool(Err,lpmin,lt,amp,quot) reach=end */
 {
     static const char* NAMES[][3] = {{"A", "B", "C"}, {"Err", "lpmin", "lt"}, {"amp", "quot", "gt"}};
     MModel m; m.gdecl = GDECL; m.system = "system T, U;";
@@ -127,6 +127,10 @@ extern "C" void harness_graph()  /* vf: bounds=2_templates;3_locations;2_edges_w
         t.edges.push_back(me);
     }
     t.init = vf_pick("!init", 3);
+    { int f0 = vf_pick("!flag0", 3), f2 = vf_pick("!flag2", 3); t.locs[0].urgent = f0 == 1; t.locs[0].committed = f0 == 2; t.locs[2].urgent = f2 == 1; t.locs[2].committed = f2 == 2; }   // urgent / committed locations as edge endpoints
+#ifndef VF_TIER_THOROUGH
+    vf_assume((np == 0 && t.init == 0 && t.edges[0].ctrl == 0) || (!t.locs[0].urgent && !t.locs[0].committed && !t.locs[2].urgent && !t.locs[2].committed));
+#endif
     MEdge f; f.src = 1; f.dst = 2; f.sync = "bc!"; u.edges = {f}; u.init = 2;
     m.templs = {t, u};
     run(m);
